@@ -28,6 +28,7 @@ GROUPS = {
             "fontdrasil/src/variations.rs": "harness/fontdrasil/variations.rs",
             "fontdrasil/src/piecewise_linear_map.rs": "harness/fontdrasil/piecewise_linear_map.rs",
             "fontdrasil/src/coords.rs": "harness/fontdrasil/coords.rs",
+            "fontdrasil/src/types.rs": "harness/fontdrasil/types.rs",
         },
     },
 }
@@ -42,6 +43,15 @@ GROUPS["fontir"] = {
     },
 }
 
+GROUPS["fontbe"] = {
+    "package": "fontbe",
+    "dep_crates": ["fontbe"],
+    "harness": {
+        "fontbe/src/glyphs.rs": "harness/fontbe/glyphs.rs",
+        "fontbe/src/metrics_and_limits.rs": "harness/fontbe/metrics_and_limits.rs",
+        "fontbe/src/os2.rs": "harness/fontbe/os2.rs",
+    },
+}
 GROUPS["fontir-c4"] = dict(GROUPS["fontir"], shim_features=[])
 
 HARNESSES = []
@@ -137,7 +147,40 @@ H("c16_overlay_whole_2rules_1axis", "C16", "fontir-c4", "feature_variations", ti
   bound="2 rules, one box each on one axis, bounds on the k/4 grid, probe strictly between grid lines; container capacity 4; unwind 6",
   oracle="first output box containing the probe carries exactly the substitutions of the rules containing the probe, in rule order")
 
+G = "fontbe/src/glyphs.rs"
+M = "fontbe/src/metrics_and_limits.rs"
+H("c19_component_offset_fits_or_errs", ["C19", "C03"], "fontbe", "glyphs", flags=CHECKED_FLAGS, funcs=[G + "::create_component_ref_gid"],
+  bound="offsets e,f any finite f64 with |x| < 1e9", oracle="Err, or stored offset == floor(x+0.5) exactly (never clamped)")
+H("c19_component_2x2_within_f2dot14", "C19", "fontbe", "glyphs", flags=CHECKED_FLAGS, funcs=[G + "::create_component_ref_gid"],
+  bound="scale a any f64 in [-2,2] (the range fontir's decomposition guard lets through)", oracle="stored 2.14 value within half a step, +2.0 stored as the largest 2.14 value")
+H("c19_composite_delta_not_clamped", ["C19", "C03"], "fontbe", "glyphs", flags=CHECKED_FLAGS, funcs=[G + "::process_composite_deltas"],
+  bound="one delta, dx,dy any f64 inside the i16 range", oracle="stored delta within 0.5 of the input; optional <=> rounds to (0,0)")
+H("c19_composite_delta_beyond_i16", "C19", "fontbe", "glyphs", flags=CHECKED_FLAGS, funcs=[G + "::process_composite_deltas"],
+  bound="dx any finite f64 beyond the i16 range (|x| < 1e9)", oracle="stored delta within 0.5 of the input (known finding: it saturates)")
+H("c19_os2_apply_metrics", "C19", "fontbe", "os2", flags=CHECKED_FLAGS, funcs=["fontbe/src/os2.rs::apply_metrics"],
+  bound="17 metrics, any f64 inside the range of their i16/u16 field", oracle="each OS/2 field == floor(own metric + 0.5)")
+H("c19_width_class_total", "C19", "fontdrasil", "types", flags=CHECKED_FLAGS, funcs=["fontdrasil/src/types.rs::WidthClass::try_from"],
+  bound="every u16", oracle="Ok iff 1..=9 with the value preserved; no panic (overflow checks on)")
+H("c19_can_reuse_metrics_beyond_u16", "C19", "fontbe", "glyphs", flags=CHECKED_FLAGS, funcs=[G + "::can_reuse_metrics"],
+  bound="two advances, any finite f64 >= 65535.5", oracle="equal only if the rounded advances are equal (known finding: both saturate to 65535)")
+H("c19_can_reuse_metrics_width_not_clamped", "C19", "fontbe", "glyphs", flags=CHECKED_FLAGS, funcs=[G + "::can_reuse_metrics"],
+  bound="advances any f64 in [0,65535.5), x shift any finite |x|<1e6", oracle="true iff the rounded advances are equal and the x shift rounds to 0")
+H("c17_metrics_builder_3", "C17", "fontbe", "metrics_and_limits", funcs=[M + "::MetricsBuilder::update", M + "::MetricsBuilder::build"],
+  bound="3 glyphs: advance u16, lsb i16, has-contours bool, extent u16 all symbolic", oracle="hmtx reconstruction exact and minimal; advance max, min lsb/rsb, max extent equal a straightforward fold over non-empty glyphs")
+H("c17_metrics_builder_4", "C17", "fontbe", "metrics_and_limits", tier="thorough", funcs=[M + "::MetricsBuilder::update", M + "::MetricsBuilder::build"],
+  bound="4 glyphs, all inputs symbolic", oracle="as c17_metrics_builder_3")
+H("c17_metrics_builder_1", "C17", "fontbe", "metrics_and_limits", funcs=[M + "::MetricsBuilder::update", M + "::MetricsBuilder::build"],
+  bound="1 glyph, all inputs symbolic", oracle="as c17_metrics_builder_3")
+H("c19_metrics_update_no_overflow", ["C19", "C17"], "fontbe", "metrics_and_limits", flags=CHECKED_FLAGS, funcs=[M + "::MetricsBuilder::update"],
+  bound="advance u16, lsb i16 full range, extent 0..65535", oracle="no arithmetic overflow; rsb/extent clamp to i16 as documented")
+
 PROPERTIES = {
+    "C19": {"outside": "narrowing sites inside job bodies (waived, listed in the site scan), outline point coordinates (write-fonts/kurbo), kerning/anchor values inside fea-rs builders",
+            "assumptions": ["overflow and panic checks ON for the C19 harnesses (dev profile); native replay runs dev and release"]},
+    "C17": {"outside": "maxp composite maxima, composite bounding boxes, head bbox union, loca format, average char width, first/last char index, max context: assembled in job bodies over Context",
+            "assumptions": []},
+    "C03": {"outside": "cubic->quadratic conversion (kurbo), point-stream construction and IUP (write-fonts), sub-model selection and gvar assembly (job bodies)",
+            "assumptions": ["the claim is the fontc-owned arithmetic: VariationModel delta round trip in the 2-D instantiation + the two composite-path leaf kernels"]},
     "C16": {"outside": "more than 2 axes / more than one box per region in the box step; the loop of overlay_feature_variations beyond the 2-rule instance; to_condition_set; "
                        "design-space normalisation of conditions in fontbe; record sorting in fea-rs; lookup construction",
             "assumptions": ["the composition of the box step and the rank order into the overlay loop is argued in harness/fontir/feature_variations.rs, not solved, beyond the 2-rule instance"]},
@@ -147,4 +190,4 @@ PROPERTIES = {
             "assumptions": []},
 }
 SV_PROPERTIES = {"C07", "C03"}
-SCAN_PROPERTIES = set()
+SCAN_PROPERTIES = {"C19"}
